@@ -80,7 +80,8 @@ Definition gha_oracle (c : bytes * node * list (bytes * bytes) * list (bytes * b
   | None => 4
   | Some v =>
       let decl := declared_gha v in
-      let known := gha_known v in
+      (* a workflow outside gha_regular is still a well-formed workflow (finding gha-steps-or-uses-key-anywhere) *)
+      let known := gha_known v || negb (gha_regular v) in
       if negb (list_eqb pair_eqb decl expected) then 5
-      else if list_eqb pair_eqb impl decl then 0 else if known then 7 else if negb (gha_regular v) then 8 else 6
+      else if list_eqb pair_eqb impl decl then 0 else if known then 7 else 6
   end.
